@@ -73,11 +73,78 @@ def check_query_case(ctx, ast, doc, text, cls, *, extra=None, env=None, nontrivi
     if hooks.STATE.h2_violations:
         ctx.violation("H2-local-location-invariant:%s" % cls, case, {"text": text, "h2": list(hooks.STATE.h2_violations)})
         return False
+    if extra is not None and isinstance(extra, dict) and ctx.rng.random() < 0.2:
+        # the same filter context as a lazily answering Mapping (item access and `in` agree, iteration lists only some
+        # names; nested objects too), as a ChainMap and as a read-only proxy: what `_` reads must not change
+        import collections
+        import types
+
+        for cname, mk in ((("lazy mapping", lambda: LazyMapping(extra)),) if _ctx_names_only(ast) else ()) + (("ChainMap", lambda: collections.ChainMap({}, extra)), ("MappingProxyType", lambda: types.MappingProxyType(extra)),):
+            alt_ctx = impl.call(lambda: impl.match_records(env.finditer(text, doc, filter_context=mk())))
+            ctx.count("filter_contexts_of_other_mapping_types")
+            if not alt_ctx.ok or [(p_, canon(_plain(o_)), q_) for p_, o_, q_ in alt_ctx.value] != [(p_, canon(_plain(o_)), q_) for p_, o_, q_ in it.value]:
+                ctx.violation("filter-context-held-in-another-mapping-type-reads-differently:%s" % cname, case,
+                              {"text": text, "context_type": cname, "got": alt_ctx.desc() if not alt_ctx.ok else impl.brief_impl([(p_, _plain(o_), q_) for p_, o_, q_ in alt_ctx.value]), "with_dict": impl.brief_impl(it.value)})
+                return False
     if model:
         ctx.count("cases_with_matches")
     if len(ctx.samples) < 2 or ctx.rng.random() < sample_p:
         ctx.sample({"text": text, "doc": canon(doc)[:200], "nodelist": impl.brief(model)[:4], "class": cls})
     return True
+
+
+def _ctx_names_only(ast):
+    """True iff every `_`-rooted query in the AST uses name selectors only (so that a mapping which does not list all
+    its names when iterated must still give the same answers)."""
+    ok = True
+    stack = [ast]
+    while stack:
+        x = stack.pop()
+        if isinstance(x, list):
+            if len(x) == 3 and x[0] == "q" and x[1] == "_":
+                for seg in x[2]:
+                    if seg[0] != "child" or any(sel[0] != "name" for sel in seg[1]):
+                        ok = False
+            stack.extend(x)
+    return ok
+
+
+def _plain(v):
+    from collections.abc import Mapping
+
+    if isinstance(v, LazyMapping):
+        return {k: _plain(v[k]) for k in v._all}
+    if isinstance(v, Mapping) and not isinstance(v, dict):
+        return {k: _plain(x) for k, x in v.items()}
+    if isinstance(v, dict):
+        return {k: _plain(x) for k, x in v.items()}
+    if isinstance(v, list):
+        return [_plain(x) for x in v]
+    return v
+
+
+import collections.abc as _abc
+
+
+class LazyMapping(_abc.Mapping):
+    """A Mapping that answers item access (and `in`) for every name of the dict it stands for, but lists only every
+    other name when iterated - the way mappings that compute or load values on demand behave.  Nested dicts likewise."""
+
+    def __init__(self, d):
+        self._all = dict(d)
+
+    def __getitem__(self, k):
+        v = self._all[k]
+        return LazyMapping(v) if isinstance(v, dict) else v
+
+    def __iter__(self):
+        return iter(list(self._all)[::2])
+
+    def __len__(self):
+        return len(list(self._all)[::2])
+
+    def __contains__(self, k):
+        return k in self._all
 
 
 class _Val:
